@@ -35,10 +35,22 @@ func genConcCase(r *rand.Rand, cfg Cfg, g int) (prefix []string, per [][]string)
 	}
 	prefix = append(prefix, fmt.Sprintf("root 0 %d", nroot))
 	nroot++
+	// some goroutines receive a CLONE of the (already modified) tree made before they start;
+	// the others load one of the persisted roots themselves
+	cloned := make([]bool, g)
+	for gi := 0; gi < g; gi++ {
+		if r.Intn(2) == 0 {
+			cloned[gi] = true
+			prefix = append(prefix, fmt.Sprintf("clone 0 %d", 10*(gi+1)))
+		}
+	}
 	for gi := 0; gi < g; gi++ {
 		var ops []string
-		ops = append(ops, fmt.Sprintf("load %d 0", r.Intn(nroot)))
-		slots := []int{0}
+		base := 10 * (gi + 1)
+		if !cloned[gi] {
+			ops = append(ops, fmt.Sprintf("load %d %d", r.Intn(nroot), base))
+		}
+		slots := []int{base}
 		myroots := 0
 		for i := 0; i < 15+r.Intn(40); i++ {
 			s := pick(r, slots)
@@ -46,15 +58,13 @@ func genConcCase(r *rand.Rand, cfg Cfg, g int) (prefix []string, per [][]string)
 			case x < 40:
 				ops = append(ops, opIns(s, pick(r, uni), uint64(r.Intn(3))))
 			case x < 55:
-				// the generator does not track contents here; the session oracle does. A delete of a
-				// possibly absent key / wrong value is fine: both outcomes are defined.
 				ops = append(ops, opDel(s, pick(r, uni), uint64(r.Intn(3))))
 			case x < 65:
 				ops = append(ops, fmt.Sprintf("get %d %d", s, pick(r, uni)))
 			case x < 75:
 				ops = append(ops, fmt.Sprintf("iter %d", s))
 			case x < 83:
-				d := r.Intn(3)
+				d := base + r.Intn(3)
 				ops = append(ops, fmt.Sprintf("clone %d %d", s, d))
 				found := false
 				for _, q := range slots {
@@ -76,7 +86,7 @@ func genConcCase(r *rand.Rand, cfg Cfg, g int) (prefix []string, per [][]string)
 				}
 			}
 		}
-		ops = append(ops, "iter 0")
+		ops = append(ops, fmt.Sprintf("iter %d", base))
 		per = append(per, ops)
 	}
 	return
@@ -113,6 +123,12 @@ func famConc(f *FamCtx) {
 				for k, v := range base.Roots { // the shared roots (read-only)
 					s.Roots[k] = v
 					s.ROracle[k] = base.ROracle[k]
+				}
+				for k, v := range base.Trees { // the clone handed to this goroutine, if any
+					if k == 10*(gi+1) {
+						s.Trees[k] = v
+						s.Oracle[k] = copyMap(base.Oracle[k])
+					}
 				}
 				for _, l := range per[gi] {
 					o, v := s.Exec(l)
